@@ -71,12 +71,24 @@ def y1_rule_list(ctx):
     c = cl[0]
     alts = [(render(x), [cond_str(dd, v) for dd, v in cs]) for x, cs in alternatives(c, c.ret_expr())]
     radt = {v['name']: v['discr'] for v in ctx.facts.adts['tokinizer::rule_tokinizer::RuleType']['variants']}
+    # the predicate holds exactly for API entries whose name equals the requested one: every alternative is either the
+    # constant false, or - under "the entry is API" - the name comparison itself or `true` under "the comparison holds"
     ok = False
+    const_false = []
+    bad_alt = []
     for x, cs in alts:
-        if 'RuleTrait::name' in x and re.search(r'eq\(', x):
-            api = any(re.search(r'discr\(.*\)=\[%d\]' % radt['API'], k) for k in cs)
-            ok = api
-    const_false = [x for x, cs in alts if x == 'False']
+        api = any(re.search(r'discr\(.*\)=\[%d\]' % radt['API'], k) for k in cs)
+        named = any('RuleTrait::name' in k and re.search(r'eq\(', k) and k.endswith('!=[0]') for k in cs)
+        if x == 'False':
+            const_false.append(x)
+        elif 'RuleTrait::name' in x and re.search(r'eq\(', x) and api:
+            ok = True
+        elif x == 'True' and api and named:
+            ok = True
+        else:
+            bad_alt.append(x)
+    if bad_alt:
+        ok = False
     if ok and const_false:
         ctx.ok('Y1', 'delete_rule matches API rules by name only (internal rules are never removed)', 'gamma', site=c.loc)
     else:
@@ -215,7 +227,8 @@ def y4_duplicates(ctx):
     if len(ws) != 1 or ws[0][2] != 'insert':
         ctx.finding('Y4', 'add_dynamic_type/write-shape', 'add_dynamic_type writes with %s' % [w[2] for w in ws], site=a.loc)
     else:
-        conds = a.cond_text(ws[0][0])
+        from ..facts import implied_conds
+        conds = a.cond_text(ws[0][0]) + implied_conds(a, ws[0][0])
         if any(re.fullmatch(r'discr\(BTreeMap::get\(self\.config\.types, name\)\)=\[0\]', c) or re.fullmatch(r'BTreeMap::contains_key\(self\.config\.types, name\)=\[0\]', c) for c in conds):
             ctx.ok('Y4', 'add_dynamic_type inserts only when the family name is new', 'guard-dom', site=ws[0][1]['loc'])
         else:
@@ -226,7 +239,8 @@ def y4_duplicates(ctx):
     if len(ws) != 1 or ws[0][2] != 'insert':
         ctx.finding('Y4', 'add_dynamic_type_item/write-shape', 'add_dynamic_type_item writes with %s' % [w[2] for w in ws], site=i.loc)
     else:
-        conds = i.cond_text(ws[0][0])
+        from ..facts import implied_conds
+        conds = i.cond_text(ws[0][0]) + implied_conds(i, ws[0][0])
         fam = any(re.search(r'discr\(BTreeMap::get(_mut)?\(self\.config\.types, name\)\)=\[1\]', c) for c in conds)
         fresh = any(re.search(r'contains_key\(.*, index\)=\[0\]', c) or re.search(r'discr\(BTreeMap::get\(.*, index\)\)=\[0\]', c) for c in conds)
         if fam and fresh:
